@@ -192,6 +192,29 @@ let show_steps h (l : istep list) : string =
     | INode (t, n) -> hb (root_of h n)
     | IEnd -> "END" | IErr -> "ERR" | IPanic -> "PANIC") l)
 
+(* Get(i) for i = 0 .. len-1 with a binary counter (the model's get_all walks a unary nat and
+   converts every index with N.of_nat: quadratic on the extracted code for 10^5 elements).
+   Same function view_get, same order; C17_ix_eq_get proves ix_iter = get_all ++ End*. *)
+let get_all_fast (t : ty) (n : node) : istep list =
+  let len = match t with
+    | TBitvector k | TVector (_, k) -> OK k
+    | TBitlist k | TList (_, k) -> list_length k n
+    | TContainer fs -> OK (n_of_int (List.length fs))
+    | _ -> Err in
+  match len with
+  | OK len ->
+    let cnt = int_of_n len in
+    let out = ref [] in
+    let i = ref N0 in
+    for _ = 1 to cnt do
+      out := (match view_get t n !i with
+          | OK (GVal v) -> IVal v | OK (GNode (t', m)) -> INode (t', m)
+          | Err -> IErr | Panic -> IPanic) :: !out;
+      i := N.succ !i
+    done;
+    List.rev !out
+  | Err -> [IErr] | Panic -> [IPanic]
+
 let c17 h zh tys vals =
   let t = ty_of tys and v = val_of vals in
   match from_val zh t v with
@@ -202,7 +225,9 @@ let c17 h zh tys vals =
         if List.exists (function IErr | IPanic -> true | _ -> false) l then "ERR" else show_steps h l
       | _ -> "-" in
     Printf.sprintf "ro=%s ix=%s get=%s fv=%s" (show_steps h (ro_iter t n (nat_of_int 3)))
-      (show_steps h (ix_iter t n (nat_of_int 3))) (show_steps h (get_all t n)) fv
+      (let g = get_all_fast t n in
+       if g = [IErr] || g = [IPanic] then show_steps h g else show_steps h (g @ [IEnd; IEnd; IEnd]))
+      (show_steps h (get_all_fast t n)) fv
   | Err -> "ro=ERR ix=ERR get=ERR" | Panic -> "ro=PANIC ix=PANIC get=PANIC"
 
 (* ---- C19 ---- *)
